@@ -909,10 +909,20 @@ def replay(ctx, payload):
 
 
 LEVEL_TEXT = ('Machine-checked proof (Lean 4) over a hand-written model of the netutils validators and of the parsers '
-              'underneath them (glibc inet_pton/inet_aton, netaddr.IPNetwork, CPython int()). See the theorem list in '
-              'OsloProofs/Props/C11.lean; the CIDR theorem is _partial (it excludes the int()-leniency class N5). The '
-              'model is tied to the code by a grammar-directed differential correspondence on every run; "never raises" '
-              'is checked there and by the implementation-only search with ipaddress as third voice.')
+              'underneath them (glibc inet_pton/inet_aton, netaddr.IPNetwork, CPython int()). Full strength, for every '
+              'text: is_valid_ipv4 accepts exactly the canonical dotted quads (iff); is_valid_mac accepts exactly six '
+              'hex pairs joined by ":" (iff); port / ICMP type / ICMP code iff int() reads a number in range (str, int, '
+              'None); is_valid_ipv6 accepts every full, "::"-compressed and IPv4-suffixed rendering of every 128-bit '
+              'value and parses it back to the same groups, rejects wrong group counts, any five-hex-digit group, any '
+              'second "::", scope ids of length 0 or > 15 (scope iff); is_valid_cidr / is_valid_ipv6_cidr iff one "/", '
+              'valid address part and an int()-in-range or mask prefix, with no-slash / empty-prefix / second-slash '
+              'rejection; is_valid_ip accepts every strict IPv4 and every IPv6 text. Partial (named _partial): the CIDR '
+              'theorems over the strict prefix grammar [0-9]+ exclude the known-finding class N5 (prefix text accepted by '
+              'int() only) and assume the 4300-digit int limit. Not proved (correspondence and search only): the converse '
+              'grammar characterisation of is_valid_ipv6, the inet_aton branch of is_valid_ip beyond canonical quads, and '
+              '"only contiguous masks pass". The model is tied to the code by a grammar-directed differential '
+              'correspondence on every run; "never raises" is checked there and by the implementation-only search with a '
+              'grammar oracle and ipaddress as third voice.')
 LEVEL_NOTE = ('Trusted: Lean kernel; the hand model and the correspondence harness; the interpreter tables read by the '
               'translator. is_valid_ip follows inet_aton forms by recorded interpretation.')
 TECHNIQUE = 'Lean 4 theorems over total parsers + model/implementation correspondence + grammar oracle search'
